@@ -1,5 +1,156 @@
 ------------------------------ MODULE Mon_C19 ------------------------------
-EXTENDS Naturals, Sequences, TLC
-MonInit == [viol |-> <<>>]
-MonStep(m, e, l) == m
+(***************************************************************************)
+(* C19 - Master scheduling: requests first and in order, polls on period,  *)
+(* one at a time.                                                           *)
+(*                                                                         *)
+(* The monitor keeps the user requests accepted and not yet started (Q, in *)
+(* submission order), the polls with the earliest instant each may run     *)
+(* next, the last link activity per association and whether a request is   *)
+(* outstanding; the callbacks and link-status requests of a line are       *)
+(* merged by virtual time and examined in order.                           *)
+(*   fifo                 a user task started that is not the oldest       *)
+(*                        accepted request of its association              *)
+(*   poll-before-request  a periodic poll started while a user request is  *)
+(*                        waiting                                          *)
+(*   poll-early           a periodic poll started before completion of its *)
+(*                        previous run + period without being demanded     *)
+(*   poll-starved         channel idle at the end of a line although a     *)
+(*                        poll is due (or demanded)                        *)
+(*   no-turns             an association served twice in a row while       *)
+(*                        another one had a request waiting all along      *)
+(*   keepalive-early      link status request before the configured        *)
+(*                        silence (or without keep-alive configured)       *)
+(*   two-outstanding      a request started while another is outstanding   *)
+(*   spin                 the master does not come to rest (watchdog)      *)
+(***************************************************************************)
+EXTENDS MMonBase
+
+TaskKinds == {"read", "cmd", "restart", "link_status", "empty", "time"}
+KindOfName(n) == CASE n = "UserRead" -> "read" [] n = "Command" -> "cmd" [] n = "Restart" -> "restart"
+                   [] n = "GenericEmptyResponse" -> "empty" [] n = "TimeSync" -> "time" [] OTHER -> ""
+
+MonInit == [cfg |-> [assocs |-> <<>>], sc |-> "", viol |-> <<>>,
+            up |-> FALSE, en |-> TRUE, pipe |-> FALSE,
+            Q |-> <<>>,             \* <<[id, kind, a, t]>>
+            polls |-> <<>>,         \* <<[a, pid, period, next, dem]>>
+            runPoll |-> [a |-> 0, pid |-> -1],
+            nout |-> 0, link |-> [on |-> FALSE, t |-> 0, a |-> 0],
+            act |-> <<>>,           \* <<[a, t]>> last link activity
+            served |-> 0, waiting |-> {}, sawIin |-> FALSE]
+V(m, reason, l, ctx) == [m EXCEPT !.viol = Append(@, Viol("C19", reason, l, m.sc, ctx))]
+
+Quiet(cfg) == \A i \in 1..Len(cfg.assocs) : ~cfg.assocs[i].dis /\ ~cfg.assocs[i].integ /\ ~cfg.assocs[i].en
+                                             /\ cfg.assocs[i].tsync = ""
+QOf(m, a) == SelectSeq(m.Q, LAMBDA r : r.a = a)
+ActOf(m, a) == LET xs == SelectSeq(m.act, LAMBDA x : x.a = a) IN IF xs = <<>> THEN 0 ELSE xs[1].t
+PollIx(m, a, pid) == IF \E i \in 1..Len(m.polls) : m.polls[i].a = a /\ m.polls[i].pid = pid
+                       THEN CHOOSE i \in 1..Len(m.polls) : m.polls[i].a = a /\ m.polls[i].pid = pid ELSE 0
+DropId(q, id) == SelectSeq(q, LAMBDA r : r.id # id)
+
+\* a link status request resolves silently: by any fragment received or after the response timeout
+LinkExpire(m, t) == IF m.link.on /\ IsAssoc(m.cfg, m.link.a) /\ t >= m.link.t + ACfg(m.cfg, m.link.a).rt
+                      THEN [m EXCEPT !.link.on = FALSE, !.nout = 0] ELSE m
+
+Begin(m, l, what) == IF m.nout > 0 THEN V(m, "two-outstanding", l, "request started while another one is outstanding: " \o what)
+                     ELSE [m EXCEPT !.nout = 1]
+
+\* ---- items of a line in order: callbacks and link status requests
+CbItem(m0, e, c, l) ==
+    LET m == LinkExpire(m0, c.t) IN
+    IF c.k # "ai" \/ c.n \notin {"task_start", "task_success", "task_fail"} THEN m
+    ELSE
+    LET a == c.i[1] IN
+    IF c.n = "task_start" THEN
+        LET m1 == Begin(m, l, c.s) IN
+        IF KindOfName(c.s) # "" THEN
+            LET qa == QOf(m1, a)
+                okHead == qa # <<>> /\ qa[1].kind = KindOfName(c.s)
+                m2 == IF ~okHead THEN V(m1, "fifo", l, "user task started that is not the oldest accepted request of its association: " \o c.s) ELSE m1
+                victim == IF okHead THEN qa[1].id
+                          ELSE LET same == SelectSeq(qa, LAMBDA r : r.kind = KindOfName(c.s)) IN IF same = <<>> THEN -1 ELSE same[1].id
+                \* turns: served again while another association kept waiting with the same oldest request
+                m3 == IF m.served = a /\ \E w \in m.waiting : w.a # a /\ QOf(m2, w.a) # <<>> /\ QOf(m2, w.a)[1].id = w.id
+                        THEN V(m2, "no-turns", l, "association served twice in a row while another one was waiting") ELSE m2
+                q1 == DropId(m3.Q, victim)
+                addrs == {q1[i].a : i \in 1..Len(q1)}
+            IN [m3 EXCEPT !.Q = q1, !.served = a,
+                          !.waiting = {[a |-> b, id |-> SelectSeq(q1, LAMBDA r : r.a = b)[1].id] : b \in addrs}]
+        ELSE IF c.s = "PeriodicPoll" THEN
+            LET xs == SelectSeq(e.tx, LAMBDA x : x.fc = 1 /\ x.dst = a /\ x.t = c.t)
+                pid == IF xs = <<>> THEN -1 ELSE xs[1].pid
+                i == PollIx(m1, a, pid)
+                m2 == IF m1.Q # <<>> THEN V(m1, "poll-before-request", l, "periodic poll started while a user request is waiting") ELSE m1
+                m3 == IF i # 0 /\ c.t < m2.polls[i].next /\ ~m2.polls[i].dem
+                        THEN V(m2, "poll-early", l, "periodic poll started before one period after its previous completion") ELSE m2
+            IN IF i = 0 THEN [m3 EXCEPT !.runPoll = [a |-> a, pid |-> -1], !.served = 0]
+               ELSE [m3 EXCEPT !.runPoll = [a |-> a, pid |-> pid], !.polls[i].dem = FALSE, !.served = 0]
+        ELSE [m1 EXCEPT !.served = 0]
+    ELSE \* success / fail: the outstanding request is over
+        LET m1 == [m EXCEPT !.nout = 0]
+            i == PollIx(m1, m.runPoll.a, m.runPoll.pid)
+        IN IF c.s = "PeriodicPoll" /\ i # 0 /\ m.runPoll.a = a
+             THEN [m1 EXCEPT !.polls[i].next = c.t + m1.polls[i].period, !.polls[i].dem = FALSE, !.runPoll = [a |-> 0, pid |-> -1]]
+             ELSE m1
+
+LtxItem(m0, e, x, l) ==
+    LET m == LinkExpire(m0, x.t)
+        a == x.dst
+        qa == QOf(m, a)
+        user == qa # <<>> /\ qa[1].kind = "link_status"
+        m1 == Begin(m, l, "link status")
+        ka == IF IsAssoc(m.cfg, a) THEN ACfg(m.cfg, a).ka ELSE -1
+        m2 == IF ~user /\ (ka < 0 \/ x.t < ActOf(m, a) + ka)
+                THEN V(m1, "keepalive-early", l, "link status request before the configured silence") ELSE m1
+    IN [m2 EXCEPT !.Q = IF user THEN DropId(@, qa[1].id) ELSE @, !.link = [on |-> TRUE, t |-> x.t, a |-> a],
+                  !.served = IF user THEN a ELSE 0]
+
+RECURSIVE Walk(_, _, _, _, _)
+Walk(m, e, cs, xs, l) ==
+    IF cs = <<>> /\ xs = <<>> THEN m
+    ELSE IF xs = <<>> \/ (cs # <<>> /\ Head(cs).t <= Head(xs).t) THEN Walk(CbItem(m, e, Head(cs), l), e, Tail(cs), xs, l)
+    ELSE Walk(LtxItem(m, e, Head(xs), l), e, cs, Tail(xs), l)
+
+MonStep(m, e, l) ==
+    IF e.k = "reset" THEN [MonInit EXCEPT !.cfg = e.cfg, !.sc = e.id, !.viol = m.viol, !.en = e.cfg.enabled]
+    ELSE IF e.k = "hang" THEN V(m, "spin", l, "the master did not come to rest")
+    ELSE IF ~HasOutputs(e) THEN m
+    ELSE
+    LET up1 == CASE e.k = "conn" -> m.up \/ m.en [] e.k = "enable" -> m.up \/ m.pipe
+                 [] e.k \in {"cut", "disable"} -> FALSE [] OTHER -> m.up
+        pipe1 == CASE e.k = "conn" -> ~m.up /\ ~m.en [] e.k \in {"enable", "cut"} -> FALSE [] OTHER -> m.pipe
+        en1 == CASE e.k = "enable" -> TRUE [] e.k = "disable" -> FALSE [] OTHER -> m.en
+        isRx == e.k = "rx" /\ ~e.rx.noconn
+        \* activity and silent resolution of a link status request by anything received
+        mA == IF isRx THEN [m EXCEPT !.act = Append(SelectSeq(@, LAMBDA x : x.a # e.rx.src), [a |-> e.rx.src, t |-> e.t]),
+                                     !.nout = IF m.link.on THEN 0 ELSE @, !.link.on = FALSE,
+                                     !.sawIin = @ \/ e.rx.iin.rst \/ e.rx.iin.time \/ e.rx.iin.ovf \/ e.rx.iin.c1 \/ e.rx.iin.c2 \/ e.rx.iin.c3]
+              ELSE m
+        \* the request of this line
+        mQ == IF e.k = "req" THEN
+                  LET r == e.req
+                      refused == \E i \in 1..Len(e.done) : e.done[i].id = r.id
+                  IN CASE r.kind \in TaskKinds /\ ~refused ->
+                              [mA EXCEPT !.Q = Append(@, [id |-> r.id, kind |-> r.kind, a |-> r.a, t |-> e.t])]
+                       [] r.kind = "poll_add" ->
+                              [mA EXCEPT !.polls = Append(@, [a |-> r.a, pid |-> r.pid, period |-> r.period,
+                                                              next |-> e.t + r.period, dem |-> FALSE])]
+                       [] r.kind = "poll_demand" ->
+                              LET i == PollIx(mA, r.a, r.pid) IN IF i = 0 THEN mA ELSE [mA EXCEPT !.polls[i].dem = TRUE]
+                       [] r.kind = "assoc_remove" ->
+                              [mA EXCEPT !.polls = SelectSeq(@, LAMBDA p : p.a # r.a), !.Q = SelectSeq(@, LAMBDA q : q.a # r.a)]
+                       [] OTHER -> mA
+              ELSE mA
+        mI == Walk(mQ, e, e.cb, e.ltx, l)
+        mE == LinkExpire(mI, LineEnd(e))
+        \* completions take requests out of the queue (disconnect, disable, removal)
+        ids == {e.done[i].id : i \in 1..Len(e.done)}
+        mD == [mE EXCEPT !.Q = SelectSeq(@, LAMBDA r : r.id \notin ids),
+                         !.nout = IF e.k \in {"cut", "disable"} THEN 0 ELSE @,
+                         !.link.on = IF e.k \in {"cut", "disable"} THEN FALSE ELSE @]
+        due == \E i \in 1..Len(mD.polls) : mD.polls[i].dem \/ mD.polls[i].next <= LineEnd(e)
+        mS == IF up1 /\ m.up /\ mD.nout = 0 /\ mD.Q = <<>> /\ due /\ Quiet(m.cfg) /\ ~mD.sawIin /\ ~e.panic
+                THEN V(mD, "poll-starved", l, "channel idle although a periodic poll is due") ELSE mD
+    IN [mS EXCEPT !.up = up1, !.pipe = pipe1, !.en = en1]
+
+Claimed == {"C19"}
 =============================================================================
